@@ -53,6 +53,20 @@ STRENGTHENED = {
  "C16-6": "missed at first (the library is untouched; the CLI classifies on its own): status sweep through ipputil print, in C18 and as a section of C16",
  "C18-6": "missed at first (no connection reset with later connections served): reset scenarios in C18 and C11",
  "C20-6": "missed at first (no attribute named like a field of the data model): structural names",
+ "C01-7": "missed at first (no dateTime with direction '-' and zero offset): direction x offset grid",
+ "C02-7": "missed at first (no nesting with a sibling value at every level): sibling nesting bombs",
+ "C06-7": "missed at first (no vectored reads): vectored async reads of the document (C08's vectored consumers catch it too)",
+ "C08-7": "missed at first (no vectored reads): vectored consumers with five slice shapes",
+ "C09-7": "missed at first (every base had the operation group first in memory): base built from IppAttributes::new()",
+ "C10-7": "missed at first (the process environment was whatever the caller had): hostile environment set by both engines",
+ "C11-7": "missed at first (error statuses carried no IPP body with an error status): four body kinds",
+ "C12-7": "missed at first (PEM roots were clean ASCII): UTF-8 explanatory text around the armour",
+ "C14-7": "missed at first (no path beginning with an empty segment): two such paths in the product and on the wire",
+ "C15-7": "missed at first (no long name carrying many values): two families",
+ "C16-7": "missed by C16 at first (C17 caught it from the start): readiness status gate in C16",
+ "C17-7": "missed at first (state and reasons always in one printer group): split-group contexts",
+ "C18-7": "missed at first (the peer always wrote 'Content-Type: application/ipp'): five spellings",
+ "C20-7": "missed at first (no raw octets spelling a hex literal): encoded-looking octets among the atoms",
  "C18-1": "missed by C18 at first (caught by C17 from the start); C18 now scripts all 10 blocking reasons, scalar and inside a set",
 }
 def main():
